@@ -61,6 +61,7 @@ vharness! {
 }
 
 vharness! {
+    //@ twin_replay: yes
     //@ props: C01
     //@ tier: quick
     //@ expect: fail
